@@ -924,6 +924,7 @@ uint64_t sim_machine_time_stamp(void) {
     if (fault("clock", 0.02)) g_now += 1000000 + g_rng_clock.below(9000000);
     return g_now * 3;  // 3 GHz
 }
+void sim_tso_region(const void* p, size_t n, int on) { if (!g_active) return; if (on) sim::tso_register(p, n); else sim::tso_unregister(p, n); }
 void sim_probe(const char* name) { if (g_active) sim::probe(name); }
 int sim_spin_knob(int dflt) { return (g_active && g_cfg.spin_knob >= 0) ? g_cfg.spin_knob : dflt; }
 
